@@ -105,7 +105,7 @@ fn fresh_exec<W: World>(ops: &[W::Op], tmp: &Path) -> Result<Fresh, String> {
     let file = J::obj().with("format", J::str("ckc-sim replay v1")).with("mode", J::str("history")).with("property_id", J::str(W::id())).with("ops", ops_json::<W>(ops));
     std::fs::write(tmp, file.compact()).map_err(|e| format!("{}: {}", tmp.display(), e))?;
     let exe = std::env::current_exe().map_err(|e| e.to_string())?;
-    let out = std::process::Command::new(exe).arg("replay").arg(tmp).arg("--machine").output().map_err(|e| format!("cannot spawn replay: {}", e))?;
+    let out = crate::sim::child_command(&exe).arg("replay").arg(tmp).arg("--machine").output().map_err(|e| format!("cannot spawn replay: {}", e))?;
     parse_replay_stdout(&out)
 }
 
@@ -113,7 +113,7 @@ fn fresh_exec<W: World>(ops: &[W::Op], tmp: &Path) -> Result<Fresh, String> {
 /// directed scenarios `from..=to`; report what the last one did.
 fn fresh_context<W: World>(kind: &str, seed: u64, lanes: u64, from: u64, to: u64) -> Result<Fresh, String> {
     let exe = std::env::current_exe().map_err(|e| e.to_string())?;
-    let out = std::process::Command::new(exe)
+    let out = crate::sim::child_command(&exe)
         .arg("context-replay")
         .arg("--prop")
         .arg(W::id())
@@ -359,7 +359,7 @@ pub fn run_property<W: World>(cfg: &RunCfg) -> Report {
             continue;
         }
         // the file itself, in a fresh process, must reproduce it exactly
-        let reproduced = match std::env::current_exe().and_then(|exe| std::process::Command::new(exe).arg("replay").arg(&path).arg("--machine").output()) {
+        let reproduced = match std::env::current_exe().and_then(|exe| crate::sim::child_command(&exe).arg("replay").arg(&path).arg("--machine").output()) {
             Ok(o) => matches!(parse_replay_stdout(&o), Ok(Some((ref c, st, d))) if *c == v_class && st == v_step && d == v_digest) && o.status.code() == Some(1),
             Err(e) => {
                 harness_errors.push(format!("cannot spawn replay: {}", e));
